@@ -73,6 +73,7 @@ Clauses(r) ==
     <<"MaskAligned", r.kind = "points" => PointsAligned(r)>>,
     <<"ReferenceRule", r.onlat /\ RefsOk(r)>>,
     <<"BoundsValue", r.onlat /\ BoundsValueOk(r)>>,
+    <<"ReferenceOnReportedEdge", r.refedge>>,     \* 'left' / 'right' references are bitwise the reported edges
     <<"BoundsContainMembers", r.contain>>,
     <<"BoundsDisjoint", r.disjoint>>,
     <<"DropExactlySmall", r.raised \/ (r.kept = KeptExpected(r) /\ r.keptrefs = Kept(r.refsq, r.raw, r.minpts))>>,
